@@ -299,4 +299,573 @@ theorem walk_canonical (f : Nat) (n z : Str) (hfq : isFqdn n = true) (hfold : fo
     calc z.map foldByte = z.map id := List.map_congr_left (fun c hcz => hall c (hsuf.subset hcz))
       _ = z := List.map_id z
 
+
+/-! ### wire suffixes are cut at label boundaries -/
+
+/-- wire encoding of a list of labels (without the root byte). -/
+def encodeLabels (ls : List (List Nat)) : Wire := ls.flatMap (fun l => l.length :: l)
+
+theorem wireSuffixes_boundary : ∀ (f : Nat) (w s : Wire), s ∈ wireSuffixesFuel f w →
+    ∃ ls : List (List Nat), (∀ l ∈ ls, 1 ≤ l.length ∧ l.length ≤ 63) ∧ w = encodeLabels ls ++ s := by
+  intro f
+  induction f with
+  | zero => intro w s h; simp [wireSuffixesFuel] at h
+  | succ f ih =>
+    intro w s h
+    cases w with
+    | nil => simp [wireSuffixesFuel] at h
+    | cons c rest =>
+      unfold wireSuffixesFuel at h
+      rcases List.mem_cons.mp h with rfl | h
+      · exact ⟨[], by simp, by simp [encodeLabels]⟩
+      · by_cases hc : c = 0 ∨ c > 63 ∨ c > rest.length
+        · simp [hc] at h
+        · simp only [hc, if_false] at h
+          obtain ⟨ls, hls, hw⟩ := ih _ s h
+          refine ⟨rest.take c :: ls, ?_, ?_⟩
+          · intro l hl
+            rcases List.mem_cons.mp hl with rfl | hl
+            · rw [List.length_take]; omega
+            · exact hls l hl
+          · have hlen : (rest.take c).length = c := by rw [List.length_take]; omega
+            simp only [encodeLabels, List.flatMap_cons, hlen, List.cons_append, List.append_assoc]
+            congr 1
+            have := List.take_append_drop c rest
+            rw [hw] at this
+            simpa [encodeLabels] using this.symm
+
+/-! ### loads, walks -/
+
+theorem loadQuestion_spec (H : Hash) (t : Table) (k : QKey) (e : Entry) (h : loadQuestion H t k = some e) :
+    t.get (H.q k) = some e ∧ e.kind = .question ∧ e.q = k := by
+  unfold loadQuestion at h
+  split at h
+  · rename_i e' he
+    split at h
+    · rename_i hc; cases h; exact ⟨he, hc.1, hc.2⟩
+    · cases h
+  · cases h
+
+theorem loadZone_spec (H : Hash) (t : Table) (k : ZKey) (e : Entry) (h : loadZone H t k = some e) :
+    t.get (H.z (normalizeZ k)) = some e ∧ e.kind = .zone ∧ e.z = normalizeZ k := by
+  unfold loadZone at h
+  simp only at h
+  split at h
+  · rename_i e' he
+    split at h
+    · rename_i hc; cases h; exact ⟨he, hc.1, hc.2⟩
+    · cases h
+  · cases h
+
+theorem firstActiveZone_some (H : Hash) (t : Table) (now : Int) (cls : Nat) :
+    ∀ (zs : List Str) (e : Entry), firstActiveZone H t now cls zs = some e →
+      ∃ z ∈ zs, loadZone H t ⟨z, cls⟩ = some e ∧ now < e.retryAfter := by
+  intro zs
+  induction zs with
+  | nil => intro e h; simp [firstActiveZone] at h
+  | cons z rest ih =>
+    intro e h
+    unfold firstActiveZone at h
+    split at h
+    · rename_i e' he
+      split at h
+      · rename_i hact; cases h; exact ⟨z, List.mem_cons_self, he, hact⟩
+      · obtain ⟨z', hz', h'⟩ := ih e h; exact ⟨z', List.mem_cons_of_mem _ hz', h'⟩
+    · obtain ⟨z', hz', h'⟩ := ih e h; exact ⟨z', List.mem_cons_of_mem _ hz', h'⟩
+
+theorem firstActiveZone_none_of (H : Hash) (t : Table) (now : Int) (cls : Nat) :
+    ∀ (zs : List Str), (∀ z ∈ zs, ∀ e, loadZone H t ⟨z, cls⟩ = some e → ¬ now < e.retryAfter) →
+      firstActiveZone H t now cls zs = none := by
+  intro zs
+  induction zs with
+  | nil => intro _; rfl
+  | cons z rest ih =>
+    intro h
+    unfold firstActiveZone
+    have ihr := ih (fun z' hz' => h z' (List.mem_cons_of_mem _ hz'))
+    split
+    · rename_i e he
+      have := h z List.mem_cons_self e he
+      simp [this, ihr]
+    · exact ihr
+
+/-- `retryWalk` returns a key only if no zone on the path is active. -/
+theorem retryWalk_some_inactive (H : Hash) (t : Table) (now : Int) (cls : Nat) :
+    ∀ (zs : List Str) (acc r : Option UInt64), retryWalk H t now cls zs acc = some r →
+      ∀ z ∈ zs, ∀ e, loadZone H t ⟨z, cls⟩ = some e → ¬ now < e.retryAfter := by
+  intro zs
+  induction zs with
+  | nil => intro acc r _ z hz; simp at hz
+  | cons z0 rest ih =>
+    intro acc r h z hz e he
+    unfold retryWalk at h
+    split at h
+    · rename_i hnone
+      rcases List.mem_cons.mp hz with rfl | hz
+      · rw [hnone] at he; cases he
+      · exact ih _ _ h z hz e he
+    · rename_i e0 he0
+      split at h
+      · cases h
+      · rename_i hact
+        rcases List.mem_cons.mp hz with rfl | hz
+        · rw [he0] at he; cases he; exact hact
+        · exact ih _ _ h z hz e he
+
+/-- the closest zone on the path that has ANY retained (verified) state. -/
+def firstStored (H : Hash) (t : Table) (cls : Nat) : List Str → Option Str
+  | [] => none
+  | z :: rest => if (loadZone H t ⟨z, cls⟩).isSome then some z else firstStored H t cls rest
+
+theorem retryWalk_key (H : Hash) (t : Table) (now : Int) (cls : Nat) :
+    ∀ (zs : List Str) (acc r : Option UInt64), retryWalk H t now cls zs acc = some r →
+      r = (match acc with
+           | some a => some a
+           | none => (firstStored H t cls zs).map (fun z => H.z (normalizeZ ⟨z, cls⟩))) := by
+  intro zs
+  induction zs with
+  | nil => intro acc r h; simp only [retryWalk, Option.some.injEq] at h; subst h; cases acc <;> rfl
+  | cons z0 rest ih =>
+    intro acc r h
+    unfold retryWalk at h
+    unfold firstStored
+    split at h
+    · rename_i hnone
+      simp only [hnone, Option.isSome_none, Bool.false_eq_true, if_false]
+      exact ih _ _ h
+    · rename_i e0 he0
+      split at h
+      · cases h
+      · have := ih _ _ h
+        simp only [he0, Option.isSome_some, if_true, Option.map_some]
+        cases acc with
+        | some a => simpa using this
+        | none => simpa using this
+
+/-! ### record -/
+
+/-- the three outcomes of `record`. -/
+theorem record_cases (c : Cfg) (t : Table) (now : Int) (h : UInt64) (cand : Entry) :
+    let first : Entry := { cand with streak := 1, retryAfter := now + c.initial }
+    ((t.get h = none ∨ ∃ cur, t.get h = some cur ∧ sameKey cur cand = false) ∧
+        record c t now h cand = (t.set h first, first)) ∨
+    (∃ cur, t.get h = some cur ∧ sameKey cur cand = true ∧ now < cur.retryAfter ∧
+        record c t now h cand = (t, cur)) ∨
+    (∃ cur, t.get h = some cur ∧ sameKey cur cand = true ∧ ¬ now < cur.retryAfter ∧
+        let streak := if now - cur.retryAfter ≥ (c.max : Int) then 1
+                      else if cur.streak < maxStreak then cur.streak + 1 else cur.streak
+        let next : Entry := { cur with streak := streak, prov := cand.prov, witness := cand.witness,
+                                       retryAfter := now + backoff c streak }
+        record c t now h cand = (t.set h next, next)) := by
+  intro first
+  unfold record
+  cases hg : t.get h with
+  | none => exact Or.inl ⟨Or.inl rfl, rfl⟩
+  | some cur =>
+    by_cases hs : sameKey cur cand = true
+    · by_cases ha : now < cur.retryAfter
+      · exact Or.inr (Or.inl ⟨cur, rfl, hs, ha, by simp [hs, ha]⟩)
+      · exact Or.inr (Or.inr ⟨cur, rfl, hs, ha, by simp [hs, ha]⟩)
+    · have hs' : sameKey cur cand = false := by simpa using hs
+      exact Or.inl ⟨Or.inr ⟨cur, rfl, hs'⟩, by simp only [hs', Bool.false_eq_true, if_false]; rfl⟩
+
+theorem record_get_self (c : Cfg) (t : Table) (now : Int) (h : UInt64) (cand : Entry) :
+    (record c t now h cand).1.get h = some (record c t now h cand).2 := by
+  rcases record_cases c t now h cand with ⟨_, hr⟩ | ⟨cur, hg, _, _, hr⟩ | ⟨cur, _, _, _, hr⟩
+  · rw [hr]; exact get_set_self _ _ _
+  · rw [hr]; exact hg
+  · simp only at hr; rw [hr]; exact get_set_self _ _ _
+
+theorem record_get_ne (c : Cfg) (t : Table) (now : Int) (h h' : UInt64) (cand : Entry) (hne : h' ≠ h) :
+    (record c t now h cand).1.get h' = t.get h' := by
+  rcases record_cases c t now h cand with ⟨_, hr⟩ | ⟨cur, _, _, _, hr⟩ | ⟨cur, _, _, _, hr⟩
+  · rw [hr]; exact get_set_ne _ _ _ _ hne
+  · rw [hr]
+  · simp only at hr; rw [hr]; exact get_set_ne _ _ _ _ hne
+
+theorem sameKey_refl_of (a b : Entry) (hk : a.kind = b.kind) (hq : a.q = b.q) (hz : a.z = b.z) :
+    sameKey a b = true := by
+  unfold sameKey
+  rw [hk, hq, hz]
+  cases b.kind <;> simp
+
+/-! ### histories -/
+
+/-- an actually recorded failure: which question / zone failed, and when. -/
+structure Ev where
+  kind : Kind
+  q : QKey
+  z : ZKey
+  time : Int
+
+def keyMatch (ev : Ev) (e : Entry) : Prop :=
+  ev.kind = e.kind ∧ (match e.kind with
+    | .question => ev.q = e.q
+    | .zone => ev.z = e.z)
+
+/-- `e` exists because exactly its question / zone was recorded as failed at
+`ev.time`, and suppresses for exactly the backoff of its streak from then. -/
+def Justified (c : Cfg) (evs : List Ev) (e : Entry) : Prop :=
+  ∃ ev ∈ evs, keyMatch ev e ∧ 1 ≤ e.streak ∧ e.retryAfter = ev.time + (backoff c e.streak : Int)
+
+def Inv (c : Cfg) (evs : List Ev) (t : Table) : Prop := ∀ h e, t.get h = some e → Justified c evs e
+
+theorem Inv_mono (c : Cfg) (evs evs' : List Ev) (t : Table) (hsub : ∀ ev ∈ evs, ev ∈ evs')
+    (hi : Inv c evs t) : Inv c evs' t := by
+  intro h e hg
+  obtain ⟨ev, hev, hm⟩ := hi h e hg
+  exact ⟨ev, hsub ev hev, hm⟩
+
+theorem backoff_one (c : Cfg) (hv : c.Valid) : backoff c 1 = c.initial := by
+  rw [backoff_eq]; simp only [Nat.sub_self, Nat.pow_zero, Nat.mul_one]
+  exact Nat.min_eq_right hv.2.1
+
+theorem sameKey_keyMatch (cur cand : Entry) (hs : sameKey cur cand = true) (now : Int) :
+    keyMatch ⟨cand.kind, cand.q, cand.z, now⟩ cur := by
+  unfold sameKey at hs
+  simp only [Bool.and_eq_true, beq_iff_eq] at hs
+  obtain ⟨hk, hm⟩ := hs
+  refine ⟨hk.symm, ?_⟩
+  cases hkk : cur.kind with
+  | question => simp only [hkk] at hm ⊢; exact (by simpa using hm : cur.q = cand.q).symm
+  | zone => simp only [hkk] at hm ⊢; exact (by simpa using hm : cur.z = cand.z).symm
+
+theorem record_preserves (c : Cfg) (hv : c.Valid) (evs : List Ev) (t : Table) (now : Int) (h : UInt64)
+    (cand : Entry) (hi : Inv c evs t) :
+    Inv c (evs ++ [⟨cand.kind, cand.q, cand.z, now⟩]) (record c t now h cand).1 := by
+  have hmono : ∀ ev ∈ evs, ev ∈ evs ++ [⟨cand.kind, cand.q, cand.z, now⟩] :=
+    fun ev hev => List.mem_append_left _ hev
+  have hnew : (⟨cand.kind, cand.q, cand.z, now⟩ : Ev) ∈ evs ++ [⟨cand.kind, cand.q, cand.z, now⟩] :=
+    List.mem_append_right _ (List.mem_singleton.mpr rfl)
+  intro h' e hg
+  by_cases hh : h' = h
+  · subst hh
+    rw [record_get_self] at hg
+    cases hg
+    rcases record_cases c t now h' cand with ⟨_, hr⟩ | ⟨cur, hgc, _, _, hr⟩ | ⟨cur, hgc, hs, _, hr⟩
+    · rw [hr]
+      refine ⟨_, hnew, ⟨rfl, ?_⟩, Nat.le_refl 1, ?_⟩
+      · cases cand.kind <;> rfl
+      · simp only [backoff_one c hv]
+    · rw [hr]
+      obtain ⟨ev, hev, hm⟩ := hi h' cur hgc
+      exact ⟨ev, hmono ev hev, hm⟩
+    · simp only at hr
+      rw [hr]
+      refine ⟨_, hnew, ?_, ?_, rfl⟩
+      · have := sameKey_keyMatch cur cand hs now
+        exact this
+      · simp only
+        split
+        · exact Nat.le_refl 1
+        · split
+          · omega
+          · rename_i hlt; unfold maxStreak at hlt; omega
+  · rw [record_get_ne c t now h h' cand hh] at hg
+    obtain ⟨ev, hev, hm⟩ := hi h' e hg
+    exact ⟨ev, hmono ev hev, hm⟩
+
+/-- one step of a history. `evict` deletes any set of keys (capacity eviction). -/
+inductive Op
+  | recQ (k : QKey) (prov wit : Nat) (now : Int)
+  | recZ (k : ZKey) (prov wit : Nat) (now : Int)
+  | resetQ (k : QKey)
+  | resetZ (k : ZKey)
+  | resetM (k : QKey)
+  | purge (name : Str) (qtype qclass : Nat)
+  | evict (hs : List UInt64)
+
+def applyOp (H : Hash) (c : Cfg) (t : Table) : Op → Table
+  | .recQ k prov wit now => (recordQuestion H c t now k prov wit).1
+  | .recZ k prov wit now => (recordZone H c t now k prov wit).1
+  | .resetQ k => (resetQuestion H t k).1
+  | .resetZ k => (resetZone H t k).1
+  | .resetM k => (resetMatching H t k).1
+  | .purge n qt qc => (purgeQuestion t n qt qc).1
+  | .evict hs => t.delMany hs
+
+/-- the failure a record op reports: exactly the normalised key it was called with. -/
+def eventOf : Op → Option Ev
+  | .recQ k _ _ now => some ⟨.question, normalizeQ k, zeroZ, now⟩
+  | .recZ k _ _ now => some ⟨.zone, zeroQ, normalizeZ k, now⟩
+  | _ => none
+
+def events (ops : List Op) : List Ev := ops.filterMap eventOf
+
+theorem resetQuestion_get_some (H : Hash) (t : Table) (k : QKey) (h : UInt64) (e : Entry)
+    (hg : (resetQuestion H t k).1.get h = some e) : t.get h = some e := by
+  unfold resetQuestion at hg
+  simp only at hg
+  split at hg
+  · split at hg
+    · exact get_del_some _ _ _ _ hg
+    · exact hg
+  · exact hg
+
+theorem resetZone_get_some (H : Hash) (t : Table) (k : ZKey) (h : UInt64) (e : Entry)
+    (hg : (resetZone H t k).1.get h = some e) : t.get h = some e := by
+  unfold resetZone at hg
+  simp only at hg
+  split at hg
+  · split at hg
+    · exact get_del_some _ _ _ _ hg
+    · exact hg
+  · exact hg
+
+theorem resetZones_get_some (H : Hash) (cls : Nat) : ∀ (zs : List Str) (t : Table) (n : Nat) (h : UInt64) (e : Entry),
+    (resetZones H cls zs t n).1.get h = some e → t.get h = some e := by
+  intro zs
+  induction zs with
+  | nil => intro t n h e hg; exact hg
+  | cons z rest ih =>
+    intro t n h e hg
+    unfold resetZones at hg
+    exact resetZone_get_some H t ⟨z, cls⟩ h e (ih _ _ h e hg)
+
+theorem resetMatching_get_some (H : Hash) (t : Table) (k : QKey) (h : UInt64) (e : Entry)
+    (hg : (resetMatching H t k).1.get h = some e) : t.get h = some e := by
+  unfold resetMatching at hg
+  exact resetQuestion_get_some H t _ h e (resetZones_get_some H _ _ _ _ h e hg)
+
+theorem applyOp_preserves (H : Hash) (c : Cfg) (hv : c.Valid) (pre : List Op) (t : Table) (op : Op)
+    (hi : Inv c (events pre) t) : Inv c (events (pre ++ [op])) (applyOp H c t op) := by
+  have hsub : ∀ ev ∈ events pre, ev ∈ events (pre ++ [op]) := by
+    intro ev hev; unfold events at *; rw [List.filterMap_append]; exact List.mem_append_left _ hev
+  have del : ∀ t' : Table, (∀ h e, t'.get h = some e → t.get h = some e) → Inv c (events (pre ++ [op])) t' := by
+    intro t' ht h e hg
+    obtain ⟨ev, hev, hm⟩ := hi h e (ht h e hg)
+    exact ⟨ev, hsub ev hev, hm⟩
+  cases op with
+  | recQ k prov wit now =>
+    have := record_preserves c hv (events pre) t now (H.q (normalizeQ k)) (questionCandidate (normalizeQ k) prov wit) hi
+    simpa [applyOp, recordQuestion, events, List.filterMap_append, eventOf, questionCandidate] using this
+  | recZ k prov wit now =>
+    have := record_preserves c hv (events pre) t now (H.z (normalizeZ k)) (zoneCandidate (normalizeZ k) prov wit) hi
+    simpa [applyOp, recordZone, events, List.filterMap_append, eventOf, zoneCandidate] using this
+  | resetQ k => exact del _ (resetQuestion_get_some H t k)
+  | resetZ k => exact del _ (resetZone_get_some H t k)
+  | resetM k => exact del _ (resetMatching_get_some H t k)
+  | purge n qt qc => exact del _ (fun h e hg => get_delMany_some _ t h e hg)
+  | evict hs => exact del _ (fun h e hg => get_delMany_some hs t h e hg)
+
+theorem foldl_preserves (H : Hash) (c : Cfg) (hv : c.Valid) : ∀ (ops pre : List Op) (t : Table),
+    Inv c (events pre) t → Inv c (events (pre ++ ops)) (ops.foldl (applyOp H c) t) := by
+  intro ops
+  induction ops with
+  | nil => intro pre t hi; simpa using hi
+  | cons op rest ih =>
+    intro pre t hi
+    have h1 := applyOp_preserves H c hv pre t op hi
+    have h2 := ih (pre ++ [op]) _ h1
+    simpa [List.foldl, List.append_assoc] using h2
+
+/-- every state retained after any history is justified by a failure that the
+history actually recorded for exactly that key. -/
+theorem reachable_inv (H : Hash) (c : Cfg) (hv : c.Valid) (ops : List Op) :
+    Inv c (events ops) (ops.foldl (applyOp H c) []) := by
+  have := foldl_preserves H c hv ops [] [] (by intro h e hg; simp [Table.get] at hg)
+  simpa using this
+
+/-! ### resets -/
+
+theorem normalizeScope_idem (s : Scope) : normalizeScope (normalizeScope s) = normalizeScope s := by
+  cases s with
+  | none => rfl
+  | some p =>
+    unfold normalizeScope
+    by_cases hb : p.bits = 0 ∨ p.bits > p.width
+    · simp [hb]
+    · simp only [hb, if_false]
+      have hw : ({ p with addr := p.addr / 2 ^ (p.width - p.bits) * 2 ^ (p.width - p.bits) } : Prefix).width = p.width := rfl
+      simp only [hw, hb, if_false]
+      congr 2
+      rw [Nat.mul_div_cancel _ (Nat.two_pow_pos _)]
+
+theorem canonicalName_idem (n : Str) (hwf : isFqdn (canonicalName n) = true) :
+    canonicalName (canonicalName n) = canonicalName n := by
+  have h1 : fqdn (canonicalName n) = canonicalName n := by unfold fqdn; rw [hwf]; rfl
+  have h2 : canonicalName (canonicalName n) = foldStr (fqdn (canonicalName n)) := rfl
+  rw [h2, h1]
+  unfold canonicalName
+  exact foldStr_idem _
+
+theorem normalizeQ_idem (k : QKey) (hwf : isFqdn (canonicalName k.name) = true) :
+    normalizeQ (normalizeQ k) = normalizeQ k := by
+  unfold normalizeQ
+  simp only [canonicalName_idem k.name hwf, normalizeScope_idem]
+
+theorem resetQuestion_load_none (H : Hash) (t : Table) (k : QKey) :
+    loadQuestion H (resetQuestion H t k).1 (normalizeQ k) = none := by
+  unfold resetQuestion loadQuestion
+  simp only
+  cases hg : t.get (H.q (normalizeQ k)) with
+  | none => simp [hg]
+  | some e =>
+    by_cases hc : e.kind = .question ∧ e.q = normalizeQ k
+    · simp [hc, get_del_self]
+    · simp [hc, hg]
+
+theorem resetZone_load_none (H : Hash) (t : Table) (k : ZKey) :
+    loadZone H (resetZone H t k).1 k = none := by
+  unfold resetZone loadZone
+  simp only
+  cases hg : t.get (H.z (normalizeZ k)) with
+  | none => simp [hg]
+  | some e =>
+    by_cases hc : e.kind = .zone ∧ e.z = normalizeZ k
+    · simp [hc, get_del_self]
+    · simp [hc, hg]
+
+theorem loadQuestion_none_of_deleted (H : Hash) (t t' : Table) (k : QKey)
+    (hdel : ∀ h e, t'.get h = some e → t.get h = some e) (hn : loadQuestion H t k = none) :
+    loadQuestion H t' k = none := by
+  unfold loadQuestion at *
+  cases hg : t'.get (H.q k) with
+  | none => rfl
+  | some e =>
+    have := hdel _ _ hg
+    simp only [this] at hn
+    simpa using hn
+
+theorem loadZone_none_of_deleted (H : Hash) (t t' : Table) (k : ZKey)
+    (hdel : ∀ h e, t'.get h = some e → t.get h = some e) (hn : loadZone H t k = none) :
+    loadZone H t' k = none := by
+  unfold loadZone at *
+  simp only at *
+  cases hg : t'.get (H.z (normalizeZ k)) with
+  | none => rfl
+  | some e =>
+    have := hdel _ _ hg
+    simp only [this] at hn
+    simpa using hn
+
+theorem resetZones_load_none (H : Hash) (cls : Nat) : ∀ (zs : List Str) (t : Table) (n : Nat) (z : Str), z ∈ zs →
+    loadZone H (resetZones H cls zs t n).1 ⟨z, cls⟩ = none := by
+  intro zs
+  induction zs with
+  | nil => intro t n z hz; simp at hz
+  | cons z0 rest ih =>
+    intro t n z hz
+    unfold resetZones
+    rcases List.mem_cons.mp hz with rfl | hz
+    · exact loadZone_none_of_deleted H _ _ _ (resetZones_get_some H cls rest _ _) (resetZone_load_none H t _)
+    · exact ih _ _ z hz
+
+
+/-! ### what a hit is -/
+
+theorem lookup_spec (H : Hash) (t : Table) (now : Int) (k : QKey) (e : Entry) (h : lookup H t now k = some e) :
+    now < e.retryAfter ∧
+      (loadQuestion H t (normalizeQ k) = some e ∨
+        ∃ z ∈ walkZones (normalizeQ k).name, loadZone H t ⟨z, (normalizeQ k).qclass⟩ = some e) := by
+  unfold lookup at h
+  simp only at h
+  have zone : firstActiveZone H t now (normalizeQ k).qclass (walkZones (normalizeQ k).name) = some e →
+      now < e.retryAfter ∧ (loadQuestion H t (normalizeQ k) = some e ∨
+        ∃ z ∈ walkZones (normalizeQ k).name, loadZone H t ⟨z, (normalizeQ k).qclass⟩ = some e) := by
+    intro hz
+    obtain ⟨z, hz1, hz2, hz3⟩ := firstActiveZone_some H t now _ _ e hz
+    exact ⟨hz3, Or.inr ⟨z, hz1, hz2⟩⟩
+  split at h
+  · rename_i e' he'
+    split at h
+    · rename_i hact; cases h; exact ⟨hact, Or.inl he'⟩
+    · exact zone h
+  · exact zone h
+
+theorem wireFirstActiveZone_some (H : Hash) (t : Table) (now : Int) (cls : Nat) :
+    ∀ (ss : List Wire) (e : Entry), wireFirstActiveZone H t now cls ss = some e →
+      now < e.retryAfter ∧ e.kind = .zone ∧ e.z.qclass = cls ∧ ∃ s ∈ ss, wireEqPres s e.z.zone = true := by
+  intro ss
+  induction ss with
+  | nil => intro e h; simp [wireFirstActiveZone] at h
+  | cons s rest ih =>
+    intro e h
+    have next : wireFirstActiveZone H t now cls rest = some e →
+        now < e.retryAfter ∧ e.kind = .zone ∧ e.z.qclass = cls ∧ ∃ s' ∈ s :: rest, wireEqPres s' e.z.zone = true := by
+      intro h'
+      obtain ⟨a, b, c, s', hs', d⟩ := ih e h'
+      exact ⟨a, b, c, s', List.mem_cons_of_mem _ hs', d⟩
+    unfold wireFirstActiveZone at h
+    split at h
+    · exact next h
+    · split at h
+      · split at h
+        · rename_i hc; cases h
+          exact ⟨hc.2.2.2, hc.1, hc.2.1, s, List.mem_cons_self, hc.2.2.1⟩
+        · exact next h
+      · exact next h
+
+theorem lookupWire_spec (H : Hash) (t : Table) (now : Int) (w : Wire) (qt qc : Nat) (cd : Bool) (e : Entry)
+    (h : lookupWire H t now w qt qc cd = some e) :
+    now < e.retryAfter ∧
+      ((e.kind = .question ∧ e.q.scope = none ∧ e.q.qtype = qt ∧ e.q.qclass = qc ∧ e.q.cd = cd ∧
+          wireEqPres w e.q.name = true) ∨
+       (e.kind = .zone ∧ e.z.qclass = qc ∧ ∃ s ∈ wireSuffixes w, wireEqPres s e.z.zone = true)) := by
+  unfold lookupWire at h
+  split at h
+  · rename_i e' he'
+    cases h
+    unfold wireExact at he'
+    split at he'
+    · cases he'
+    · split at he'
+      · split at he'
+        · rename_i hc; cases he'
+          exact ⟨hc.2.2.2.2.2.2, Or.inl ⟨hc.1, hc.2.1, hc.2.2.1, hc.2.2.2.1, hc.2.2.2.2.1, hc.2.2.2.2.2.1⟩⟩
+        · cases he'
+      · cases he'
+  · obtain ⟨a, b, c, d⟩ := wireFirstActiveZone_some H t now qc _ e h
+    exact ⟨a, Or.inr ⟨b, c, d⟩⟩
+
+/-- a retry key is handed out only while nothing on the path is active. -/
+theorem retryKey_some_inactive (H : Hash) (t : Table) (now : Int) (k : QKey) (r : UInt64)
+    (h : retryKey H t now k = some r) : lookup H t now k = none := by
+  unfold retryKey at h
+  simp only at h
+  unfold lookup
+  simp only
+  cases hw : retryWalk H t now (normalizeQ k).qclass (walkZones (normalizeQ k).name) none with
+  | none =>
+    rw [hw] at h
+    split at h
+    · split at h <;> simp at h
+    · simp at h
+  | some acc =>
+    have hz := firstActiveZone_none_of H t now _ _ (retryWalk_some_inactive H t now _ _ _ _ hw)
+    rw [hz]
+    split
+    · rename_i e he
+      rw [he] at h
+      simp only at h
+      split at h
+      · cases h
+      · rename_i hact; simp [hact]
+    · rfl
+
+/-- whenever the path holds retained zone state, the retry key is the key of
+the CLOSEST such zone — whatever the question's name, type, CD or audience. -/
+theorem retryKey_zone_first (H : Hash) (t : Table) (now : Int) (k : QKey) (r : UInt64) (z : Str)
+    (h : retryKey H t now k = some r)
+    (hz : firstStored H t (normalizeQ k).qclass (walkZones (normalizeQ k).name) = some z) :
+    r = H.z (normalizeZ ⟨z, (normalizeQ k).qclass⟩) := by
+  unfold retryKey at h
+  simp only at h
+  cases hw : retryWalk H t now (normalizeQ k).qclass (walkZones (normalizeQ k).name) none with
+  | none =>
+    rw [hw] at h
+    split at h
+    · split at h <;> simp at h
+    · simp at h
+  | some acc =>
+    have hk := retryWalk_key H t now _ _ _ _ hw
+    simp only [hz, Option.map_some] at hk
+    subst hk
+    rw [hw] at h
+    split at h
+    · split at h
+      · cases h
+      · simpa using h.symm
+    · simpa using h.symm
+
 end SdnsVerif.Lemmas.FailCache
